@@ -14,6 +14,7 @@
 import copy
 import itertools
 import json
+import os
 import random
 
 import common
@@ -114,7 +115,7 @@ def cmd_req(a, cap):
 def requests_for(case):
     k = case['kind']
     if k == 'py':
-        cap = True if case.get('direct') else case.get('capture', True)
+        cap = case.get('capture', True)
         return [py_req(case), {'model': 'act', 'op': 'route', 'v': case.get('v'), 'kind': 'py',
                                'cap': CAPS[cap if cap in (False, None) else True]}]
     if k == 'cmd':
@@ -241,6 +242,8 @@ def evaluate(case, drv=None):
         model = common.drv_batch(reqs)
     try:
         obs = RUNNERS[case['kind']](case)
+    except actlib.Hang as ex:
+        return {'hang': str(ex)}, model, [('hang', 'P', str(ex))]
     except Exception as ex:  # noqa -- the implementation (or building the case on it) blew up outside execute()
         obs = None
         return obs, model, [('impl-exception', 'K', '%s: %s' % (type(ex).__name__, str(ex)[:200]))]
@@ -368,9 +371,15 @@ def describe(case):
 def report(st, case, obs, model, probs, drv):
     """turn the problems of one case into violations / divergences (shrunk)"""
     pkeys = [p for p in probs if p[1] == 'P']
+    if pkeys and pkeys[0][0] == 'hang':
+        st.violation({'case': case, 'what': describe(case), 'failed_keys': ['hang'],
+                      'problems': [list(p) for p in probs], 'impl_equals_model': False,
+                      'observed': obs, 'model': json.loads(clip_json(model))}, 'hang',
+                     'the implementation never returned: ' + probs[0][2])
+        return
     if pkeys:
         key = pkeys[0][0]
-        small = shrink(case, key, drv) if len(st.violations) < 3 else case
+        small = shrink(case, key, drv) if (len(st.violations) < 3 and key != 'hang') else case
         obs2, model2, probs2 = evaluate(small, drv)
         if not any(p[0] == key for p in probs2):      # flaky shrink result: keep the original
             small, obs2, model2, probs2 = case, obs, model, probs
@@ -476,11 +485,19 @@ def process_batch(batch):
         reqs += r
     answers = common.drv_batch(reqs)
     drv = None
+    hang_flag = HANG_FLAG[0]
     for case, (start, n) in zip(batch, index):
         model = answers[start:start + n]
+        if case['kind'] in ('cmd', 'task') and os.path.exists(hang_flag):
+            st.count('skipped-after-hang')      # one hang is a violation already; do not wait for hundreds
+            continue
         try:
             obs = RUNNERS[case['kind']](case)
             probs = judge(case, obs, model)
+        except actlib.Hang as ex:
+            obs, probs = {'hang': str(ex)}, [('hang', 'P', str(ex))]
+            os.makedirs(common.SCRATCH_ROOT, exist_ok=True)
+            open(hang_flag, 'w').close()
         except Exception as ex:  # noqa
             obs, probs = None, [('impl-exception', 'K', '%s: %s' % (type(ex).__name__, str(ex)[:200]))]
         st.case({'case': describe(case)}, nontrivial(case))
@@ -500,7 +517,8 @@ def process_batch(batch):
 # ----------------------------------------------------------------------------------------------
 # generators
 
-TEXTS = ['a', 'line\n', 'no newline', '', 'ünï☃\n', 'x' * 100 + '\n', '\n\n', 'tab\tand\rcr\n', '\x00nul', 'é']
+TEXTS = ['a', 'line\n', 'no newline', '', 'ünï☃\n', 'x' * 100 + '\n', '\n\n', 'tab\tand\rcr\n', '\x00nul', 'é', ' ', '  \n', '\n',
+         'a\n\nb\n', '\r\n']
 STRS = ['', 'abc', 'ünï☃', 'x' * 50, 'False', '0']
 VERBS = [0, 1, 2, None]
 CAPTURES = [True, False, None]
@@ -548,9 +566,8 @@ def gen_py(rng):
         c['kwargs_raise'] = rng.choice(actlib.KW_REPS)
     elif r < 0.3 and c['capture'] is True:
         c['swap'] = rng.choice(['stdout', 'stderr', 'both'])
-    elif r < 0.36:
+    elif r < 0.4:
         c['direct'] = True
-        c['capture'] = True
         c['v'] = rng.choice([0, 1, 2])
     return c
 
@@ -723,14 +740,15 @@ def exhaustive_py():
                 out.append({'kind': 'py', 'ret': ret, 'writes': writes, 'v': v, 'capture': True, 'swap': swap})
     for ret in all_rets():
         for v in (0, 1, 2):
-            out.append({'kind': 'py', 'ret': copy.deepcopy(ret), 'writes': writes, 'v': v, 'capture': True,
-                        'direct': True})
+            for cap in CAPTURES:
+                out.append({'kind': 'py', 'ret': copy.deepcopy(ret), 'writes': writes, 'v': v, 'capture': cap,
+                            'direct': True})
     return out
 
 
 def exhaustive_cmd(full):
     out = []
-    chunks = [['o', {'text': 'o1\n'}], ['e', {'hex': 'ff65'}], ['o', {'text': 'o2'}]]
+    chunks = [['o', {'text': 'o1\n\n \n'}], ['e', {'hex': 'ff650a0a'}], ['o', {'text': 'o2'}], ['e', {'text': 'e2 '}]]
     for rc in range(256):
         out.append({'kind': 'cmd', 'chunks': chunks if rc % 16 == 0 or full else [], 'exit': ['status', rc],
                     'v': rc % 3, 'capture': True, 'save_out': 1 if rc % 2 == 0 else None})
@@ -748,10 +766,11 @@ def exhaustive_cmd(full):
             out.append({'kind': 'cmd', 'chunks': chunks, 'exit': ['status', 0], 'v': 2, 'capture': cap,
                         'save_out': 1, 'expand': expand})
     # sizes up to 256 KiB, no trailing newline, multibyte sequences, one huge line
-    for unit, total in (('61', 262144), ('610a', 262144), ('c3a9', 65536), ('e282ac0a', 131072), ('ff', 70000)):
+    for unit, total in (('61', 262144), ('610a', 262144), ('c3a9', 65536), ('e282ac0a', 131072), ('ff', 70000),
+                        ('e282ac', 30000), ('f09f9880', 40000)):
         n = total // (len(unit) // 2)
-        out.append({'kind': 'cmd', 'chunks': [['o', {'rep': unit, 'n': n}], ['e', {'rep': unit, 'n': n // 2}],
-                                              ['o', {'text': 'tail'}]],
+        out.append({'kind': 'cmd', 'chunks': [['o', {'text': 'x'}], ['o', {'rep': unit, 'n': n}], ['e', {'text': 'yz'}],
+                                              ['e', {'rep': unit, 'n': n // 2}], ['o', {'text': 'tail'}]],
                     'exit': ['status', 0], 'v': 2, 'capture': True, 'save_out': 0})
     return out
 
@@ -887,7 +906,19 @@ def run_cases(ctx, cases):
         st.merge_into(ctx)
 
 
+HANG_FLAG = [os.path.join(common.SCRATCH_ROOT, 'c17-hang-%d' % os.getpid())]
+
+
+def clear_hang_flag():
+    HANG_FLAG[0] = os.path.join(common.SCRATCH_ROOT, 'c17-hang-%d' % os.getpid())   # forked workers inherit it
+    try:
+        os.remove(HANG_FLAG[0])
+    except OSError:
+        pass
+
+
 def run(ctx):
+    clear_hang_flag()
     corpus = []
     for name, c in common.load_corpus('C17'):
         corpus.append(c['case'] if 'case' in c else c)
@@ -909,6 +940,7 @@ def run(ctx):
             ctx.dist.get('kind:nested', 0),
         'overlap schedules that are not well nested (hypothesis false, counterexample side)':
             ctx.dist.get('overlap.overlapping', 0)}
+    clear_hang_flag()
 
 
 def search(ctx):
